@@ -124,6 +124,16 @@ def history(rng, maxsteps):
             elif r < 0.12:
                 kind = "X"
         steps.append(f"{kind}:" + ";".join(specs))
+        # R: a reload whose ONLY difference is that zones were removed - same sentinel, every file untouched (seed C31-H)
+        if kind == "S" and len(specs) > 2 and rng.random() < 0.3:
+            keep = [sp for sp in specs[1:] if rng.random() < 0.5]
+            if len(keep) == len(specs) - 1:
+                keep.pop(rng.randrange(len(keep)))
+            kept = {sp.split("/")[0].lower() + "/" + sp.split("/")[1] for sp in keep}
+            for z in zones:
+                if st[z]["conf"] and f"{z[0].lower()}/{z[1]}" not in kept:
+                    st[z]["conf"] = False
+            steps.append("R:" + ";".join([specs[0]] + keep))
     return "P:" + ",".join(probes) + " " + " ".join(steps)
 
 
@@ -136,7 +146,13 @@ def fixed_cases():
            "S:zz0./1/900/ok.1.1;ex./1/10/ok.1.100 "
            "S:zz1./1/901/ok.1.1;sub.ex./1/20/bad.5;ex./1/10/ok.2.200 "
            "S:zz2./1/902/ok.1.1;sub.ex./1/20/ok.1.6;ex./1/10/ok.2.200")
-    # removed zone, rejected configurations, unchanged and stale-mtime files
+    # a reload in which nothing but a removal happens (step kind R: same sentinel, barrier): a removed nested zone no
+    # longer shadows its parent, a removed top-level zone is refused
+    yield ("P:ex./1,sub.ex./1,q.sub.ex./1,other./1,q.other./1 "
+           "S:zz0./1/900/ok.1.1;ex./1/10/ok.1.100;sub.ex./1/20/ok.1.5;other./1/30/ok.1.7 "
+           "R:zz0./1/900/ok.1.1;ex./1/10/ok.1.100;other./1/30/ok.1.7 "
+           "R:zz0./1/900/ok.1.1;ex./1/10/ok.1.100 "
+           "S:zz1./1/901/ok.1.1;ex./1/10/ok.1.100;other./1/30/ok.1.7")
     yield ("P:ex./1,sub.ex./1,other./1 "
            "S:zz0./1/900/ok.1.1;ex./1/10/ok.1.100;sub.ex./1/20/ok.1.50;other./1/30/ok.1.7 "
            "D:zz1./1/901/ok.1.1;ex./1/10/ok.2.200;EX./1/10/ok.2.200 "
@@ -253,6 +269,8 @@ def classify(case, impl, model, oracle):
         tags.append("servfail")
     if " D:" in case or " X:" in case:
         tags.append("rejected-config")
+    if " R:" in case:
+        tags.append("removal-only")
     return "ok:" + ("+".join(tags) if tags else "plain")
 
 
@@ -293,7 +311,7 @@ CHECK = {
         "extraction: ExtrOcamlBasic only; OCaml 4.13.1 ocamlopt",
         "the catalog model and its refinement theorems of C22 (Model/CatTree.v), reused unchanged",
         "correspondence: checks/c31.py generator, harness/src/bin/impl_c31.rs (drives the real quandaryd: scratch files, "
-        "explicit mtimes, SIGHUP via kill(1), a per-step sentinel zone to detect the atomic catalog swap, UDP SOA probes), ocaml/run_c31.ml",
+        "explicit mtimes, SIGHUP via kill(1), a per-step sentinel zone to detect the atomic catalog swap - or, for removal-only steps (kind R, no new sentinel), a rejected second SIGHUP recognised in the daemon's log -, UDP SOA probes), ocaml/run_c31.ml",
         "file system as explicit input: fs_mtime/fs_load are arguments of the model; the harness realises only the combinations a "
         "real file system produces (time+loads, time+fails, missing); ErrorKind::Unsupported and 'metadata fails but the file loads' "
         "are covered by the theorems only",
